@@ -147,9 +147,10 @@ type c06Rec struct {
 	pan      string
 	gmp      int
 	overflow bool
+	changed  []byte // the bytes a slice returned by a Render* call held after a later render had run (nil = unchanged)
 }
 
-func c06Render(names []*c06Name, ki int, how byte, ctx *dyntpl.Ctx, buf *bytes.Buffer) (err error, pan string) {
+func c06Render(names []*c06Name, ki int, how byte, ctx *dyntpl.Ctx, buf *bytes.Buffer) (err error, pan string, live []byte) {
 	defer func() {
 		if x := recover(); x != nil {
 			pan = fmt.Sprintf("%v\n%s", x, trimStack(debug.Stack()))
@@ -160,6 +161,17 @@ func c06Render(names []*c06Name, ki int, how byte, ctx *dyntpl.Ctx, buf *bytes.B
 		err = dyntpl.WriteByID(buf, names[ki].id, ctx)
 	case 'f':
 		err = dyntpl.WriteFallback(buf, "missing-"+names[ki].name, names[ki].name, ctx)
+	case 'K', 'I', 'F':
+		// the Render* forms hand out a byte slice: it is the caller's from then on (live is re-checked later)
+		switch how {
+		case 'K':
+			live, err = dyntpl.Render(names[ki].name, ctx)
+		case 'I':
+			live, err = dyntpl.RenderByID(names[ki].id, ctx)
+		default:
+			live, err = dyntpl.RenderFallback("missing-"+names[ki].name, names[ki].name, ctx)
+		}
+		buf.Write(live)
 	default:
 		err = dyntpl.Write(buf, names[ki].name, ctx)
 	}
@@ -196,7 +208,13 @@ func (n *c06Name) newVersion() (int, *c06Ver) {
 // publish parses and registers a new version; returns an error text if Parse fails or panics.
 func (n *c06Name) publish(way int) string {
 	v, ver := n.newVersion()
-	tree, err, pan := parseSafe([]byte(ver.src), false)
+	// the loader's buffer is reused after Parse has returned (here: overwritten): a tree must own its bytes.
+	// The sources are single lines, so both keepFmt settings produce the same output.
+	lb := []byte(ver.src)
+	tree, err, pan := parseSafe(lb, v%2 == 0)
+	for i := range lb {
+		lb[i] = '#'
+	}
 	if pan != "" {
 		return "Parse panicked: " + pan
 	}
@@ -345,7 +363,7 @@ func c06(r *Run) {
 		ctx := dyntpl.NewCtx()
 		c06Fill(ctx, 1, c06Obj(1))
 		var buf bytes.Buffer
-		if err, pan := c06Render(names, ki, 'k', ctx, &buf); err != nil || pan != "" || !c06HeadRe.Match(buf.Bytes()) {
+		if err, pan, _ := c06Render(names, ki, 'k', ctx, &buf); err != nil || pan != "" || !c06HeadRe.Match(buf.Bytes()) {
 			r.Internal(fmt.Sprintf("C06 setup: sequential render of %s: err=%v panic=%q out=%q", names[ki].name, err, pan, buf.String()))
 			return
 		}
@@ -394,11 +412,13 @@ func c06(r *Run) {
 					objs[ci] = c06Obj(ci)
 				}
 				var buf bytes.Buffer
+				var heldLive, heldCopy []byte
+				heldKey, heldHow := 0, byte(0)
 				my := make([]c06Rec, 0, 4096)
 				over, quiet := 0, 0
 				for atomic.LoadInt32(&stop) == 0 {
 					ki, ci := rng.Intn(c06NMain), rng.Intn(c06NCtx)
-					how := []byte{'k', 'i', 'f'}[rng.Intn(3)]
+					how := []byte{'k', 'i', 'f', 'K', 'I', 'F'}[rng.Intn(6)]
 					ctx := dyntpl.AcquireCtx()
 					c06Fill(ctx, ci, objs[ci])
 					buf.Reset()
@@ -407,8 +427,15 @@ func c06(r *Run) {
 					}
 					e0, f0 := atomic.LoadInt64(&c06RegEvents), atomic.LoadInt64(&c06InFlight)
 					cs := c06Tick()
-					err, pan := c06Render(names, ki, how, ctx, &buf)
+					err, pan, live := c06Render(names, ki, how, ctx, &buf)
 					ce := c06Tick()
+					// the slice an earlier Render* call returned must still hold what it held then
+					if heldLive != nil && !bytes.Equal(heldLive, heldCopy) && len(my) < c06RecCap+8 {
+						my = append(my, c06Rec{key: heldKey, how: heldHow, ci: ci, cs: cs, ce: ce, out: append([]byte(nil), heldCopy...), changed: append([]byte(nil), heldLive...), gmp: gmp})
+					}
+					if live != nil {
+						heldLive, heldCopy, heldKey, heldHow = live, append(heldCopy[:0], live...), ki, how
+					}
 					// keep every render that ran while a registration was going on or went wrong in an obvious way,
 					// and a sample of the quiet ones
 					keep := f0 > 0 || atomic.LoadInt64(&c06RegEvents) != e0 || err != nil || pan != "" ||
@@ -519,6 +546,11 @@ func c06(r *Run) {
 			r.Dist["via_"+string(rec.how)]++
 			cse := map[string]any{"template": n.name, "via": string(rec.how), "ctx": rec.ci, "gomaxprocs": rec.gmp,
 				"call_interval": []int64{rec.cs, rec.ce}, "out": string(rec.out)}
+			if rec.changed != nil {
+				cse["later"] = string(rec.changed)
+				r.Violate("conc kind=result-overwritten tpl="+n.name, "the byte slice returned by a Render* call changed when another render ran: the result is not the caller's own", cse)
+				continue
+			}
 			if rec.pan != "" {
 				r.Count("panic", false)
 				r.Violate("conc kind=panic tpl="+n.name, "a concurrent render panicked: "+firstLine(rec.pan), cse)
